@@ -55,7 +55,7 @@ def run(chk):
         chk.tlc_must_pass(mod, r)
         return r.cases
     inputs = []     # (conv, input name, input)
-    rp = gen("raw", "MC_RawProto", "Emit")
+    rp = gen("raw", "MC_RawProto", "Emit", consts="CONSTANT NRand = 10\n")
     for i, c in enumerate(rp):
         if c["in_schema"]:
             inputs.append(("raw2proto", f"rawproto{i}", c["lib"]))
@@ -81,7 +81,7 @@ def run(chk):
         inputs.append(("raw2gds", f"rawgds{i}", add_defaults(c["lib"])))
         if i < len(fanr):
             inputs.append(("raw2proto", f"rawgds{i}", add_defaults(c["lib"])))
-    lr = [c for c in gen("raw", "MC_LefRaw", "Emit") if not c["must_err"]]
+    lr = [c for c in gen("raw", "MC_LefRaw", "Emit", consts="CONSTANT NRand = 10\n") if not c["must_err"]]
     multi = [c for c in lr if len(c["toks"]) > 60] + rng.sample(lr, 10)
     for i, c in enumerate(multi):
         inputs.append(("lef2raw", f"lefraw{i}", {"toks": c["toks"]}))
